@@ -25,6 +25,7 @@ import (
 	"net"
 	"sort"
 	"strings"
+	"sync"
 	"testing"
 	"time"
 
@@ -42,14 +43,21 @@ import (
 // ---- raw protocol client ------------------------------------------------------------------
 
 type v41conn struct {
-	c      net.Conn
-	id     uint32 // server side connection id
-	dead   bool
-	authed bool // what the harness believes (from Auth responses)
-	everOK bool // ever got Auth == true
-	nonce  string
-	nonceO bool
+	c       net.Conn
+	id      uint32 // server side connection id
+	dead    bool
+	authed  bool // what the harness believes (from Auth responses)
+	everOK  bool // ever got Auth == true
+	nonce   string
+	nonceO  bool
+	lastErr string
 }
+
+// generous: the suites run on loaded machines; only a request that gets NO response within
+// this time counts as "no response"
+const v41deadline = 180 * time.Second
+
+func (k *v41conn) timedOut() bool { return strings.Contains(k.lastErr, "timeout") }
 
 type v41msg struct{ b []byte }
 
@@ -90,8 +98,9 @@ func (k *v41conn) request(r *rand.Rand, sid uint32, payload []byte, wantReply bo
 		if i == len(parts)-1 {
 			hdr[8] = 1
 		}
-		k.c.SetWriteDeadline(time.Now().Add(20 * time.Second))
+		k.c.SetWriteDeadline(time.Now().Add(v41deadline))
 		if _, err := k.c.Write(append(hdr, p...)); err != nil {
+			k.lastErr = "write: " + err.Error()
 			k.dead = true
 			return false, nil, true
 		}
@@ -102,13 +111,15 @@ func (k *v41conn) request(r *rand.Rand, sid uint32, payload []byte, wantReply bo
 	var buf []byte
 	for {
 		hdr := make([]byte, mux.HeaderSize)
-		k.c.SetReadDeadline(time.Now().Add(20 * time.Second))
+		k.c.SetReadDeadline(time.Now().Add(v41deadline))
 		if _, err := io.ReadFull(k.c, hdr); err != nil {
+			k.lastErr = "read header: " + err.Error()
 			k.dead = true
 			return false, nil, true
 		}
 		p := make([]byte, binary.BigEndian.Uint32(hdr))
 		if _, err := io.ReadFull(k.c, p); err != nil {
+			k.lastErr = "read body: " + err.Error()
 			k.dead = true
 			return false, nil, true
 		}
@@ -147,6 +158,7 @@ func v41setup(withUsers bool) *v41srv {
 	authLimiter = rate.NewLimiter(rate.Inf, 1) // the limiter only slows attempts down
 	db := db19.CreateDb(stor.HeapStor(64 * 1024))
 	db19.StartConcur(db, 50*time.Millisecond)
+	v41tsOnce.Do(db19.StartTimestamps) // as openDbms does; without it Timestamp() runs off the zero date
 	db19.MakeSuTran = func(ut *db19.UpdateTran) *SuTran { return NewSuTran(nil, true) }
 	qry.MakeSuTran = func(qt qry.QueryTran) *SuTran { return NewSuTran(nil, true) }
 	for _, s := range []string{
@@ -176,6 +188,8 @@ func v41setup(withUsers bool) *v41srv {
 	return &v41srv{db: db, dl: dl, th: th, cfg: &tls.Config{Certificates: []tls.Certificate{cert}},
 		tbls: []string{"tables", "columns", "indexes", "users", "secret", "scratch", "stdlib"}}
 }
+
+var v41tsOnce sync.Once
 
 func v41connIds() map[uint32]bool {
 	serverConnsLock.Lock()
@@ -596,8 +610,37 @@ func TestVerifC41Unauth(t *testing.T) {
 		}
 		work()
 
-		// u: one command on an unauthenticated connection, several argument variations
 		alive := true
+		// the unauthenticated connection itself went away during a request. The server may drop
+		// a misbehaving unauthenticated connection (it does so for invalid command numbers); what
+		// the property forbids is an effect on anything else, and a request that is never answered.
+		lostOwn := func(ci int, name string, payload []byte, before string) {
+			alive = false
+			k := conns[ci]
+			tr.Count("u:own-connection-lost:" + name)
+			if k.timedOut() {
+				tr.Fail("unauth-effect:no-response:cmd"+name, fmt.Sprintf("history %d: request %x on unauthenticated connection got no response within %v (%s)", hist, payload, v41deadline, k.lastErr))
+				return
+			}
+			for i := 0; i < 2000 && v41connIds()[k.id]; i++ {
+				time.Sleep(time.Millisecond)
+			}
+			strip := func(x string) string {
+				i := strings.Index(x, fmt.Sprintf(" c%d=", ci))
+				if i < 0 {
+					return x
+				}
+				j := strings.Index(x[i+1:], " c")
+				if j < 0 {
+					return x[:i]
+				}
+				return x[:i] + x[i+1+j:]
+			}
+			if after := s.digest(conns, ci); strip(before) != strip(after) {
+				tr.Fail("unauth-effect:others-affected:cmd"+name, fmt.Sprintf("history %d: request %x: the unauthenticated connection was dropped (%s) and %s -> %s", hist, payload, k.lastErr, before, after))
+			}
+		}
+		// u: one command on an unauthenticated connection, several argument variations
 		doU := func(ci, idx int, tn0 bool) {
 			k := conns[ci]
 			name := "?"
@@ -644,8 +687,7 @@ func TestVerifC41Unauth(t *testing.T) {
 				ok, rest, closed := k.request(r, uint32(2+r.Intn(2)), payload, true)
 				after := s.digest(conns, ci)
 				if closed {
-					tr.Fail("unauth-effect:connection-lost:cmd"+name, fmt.Sprintf("request %x on unauthenticated connection: connection lost", payload))
-					alive = false
+					lostOwn(ci, name, payload, before)
 					return
 				}
 				if ok {
@@ -699,8 +741,7 @@ func TestVerifC41Unauth(t *testing.T) {
 				after := s.digest(conns, ci)
 				tr.Count("u:malformed")
 				if closed {
-					alive = false
-					tr.Fail("unauth-effect:connection-lost:cmd"+name, fmt.Sprintf("malformed request %x: connection lost", p))
+					lostOwn(ci, name, p, before)
 					return
 				}
 				if ok && !v41allowed[name] && name != "Log" {
@@ -1017,8 +1058,12 @@ func TestVerifC41Unauth(t *testing.T) {
 			}
 		}
 		if !victim.dead {
-			if ok, _, closed := victim.request(r, 1, (&v41msg{}).byte_(byte(commands.Timestamp)).b, true); closed || !ok {
-				tr.Fail("unauth-effect:victim-unusable", "the authenticated connection no longer answers")
+			if ok, rest, closed := victim.request(r, 1, (&v41msg{}).byte_(byte(commands.Timestamp)).b, true); closed || !ok {
+				why := "connection closed: " + victim.lastErr
+				if !closed {
+					why = "Timestamp refused: " + v41getStr(rest)
+				}
+				tr.Fail("unauth-effect:victim-unusable", fmt.Sprintf("history %d: the authenticated connection no longer answers (%s)", hist, why))
 			}
 		}
 		for _, k := range conns {
